@@ -94,7 +94,7 @@ def inline_call(caller, bi, callee):
         caller.setdefault('dbg', {})[str(int(k) + off)] = v
 
 
-def absorb_kernel_helpers(F, is_kernel_candidate, max_depth=3, max_blocks=400):
+def absorb_kernel_helpers(F, is_kernel_candidate, max_depth=3, max_blocks=400, is_kernel=None):
     """returns (set of absorbed function q, dict caller q -> new body).  F.bodies is not modified."""
     bodies = F.bodies
     cands = {q for q, b in bodies.items() if b['kind'] != 'Closure' and is_kernel_candidate(b)}
@@ -128,8 +128,9 @@ def absorb_kernel_helpers(F, is_kernel_candidate, max_depth=3, max_blocks=400):
             cs = callers.get(q, set())
             if not cs or q in cs:
                 continue   # never called, or recursive
-            if all((c in cands and c != q) or c in absorbed for c in cs) and any(c in cands or c in absorbed for c in cs):
-                # a candidate that is itself called from a non-candidate (an entry point) is a real kernel
+            if all((c in cands and c != q) or c in absorbed for c in cs) and any(c in cands or c in absorbed for c in cs) and \
+                    not (is_kernel is not None and is_kernel(b) and any(c not in absorbed and not is_kernel(bodies[c]) for c in cs if c in bodies)):
+                # (a kernel-shaped function called from an entry point is a real kernel, not a helper of the entry)
                 absorbed.add(q)
                 changed = True
             elif q in cands and not any(t['callee'] == 'std::iter::Iterator::next' for bi, t in calls_in(b)) and \
@@ -267,4 +268,48 @@ def desugar_filters(F, b, max_rounds=4):
         done.append(cq)
     nb['_facts'] = F
     nb['desugared_filters'] = done
+    return nb
+
+
+# ---------------------------------------------------------------------------------------------------------------------
+# a closure bound to a local and called directly (`let step = |v| {..}; step(&x)`) is a local function: its body is spliced in
+# at the call, so that what it does is seen where it happens
+FN_CALLS = ('std::ops::Fn::call', 'std::ops::FnMut::call_mut', 'std::ops::FnOnce::call_once')
+
+
+def inline_direct_closure_calls(F, b, max_rounds=4):
+    def sites(body):
+        out = []
+        for bi, t in calls_in(body, lambda t: t['callee'] in FN_CALLS and t.get('res') in F.bodies and F.bodies[t['res']]['kind'] == 'Closure' and len(t['args']) == 2):
+            tup = t['args'][1]
+            if tup.get('k') not in ('move', 'copy') or tup['pl']['p']:
+                continue
+            ops = None
+            for bb in body['blocks']:
+                if bb['cleanup']:
+                    continue
+                for s_ in bb['stmts']:
+                    if s_['k'] == 'assign' and s_['dst'] == {'l': tup['pl']['l'], 'p': []}:
+                        ops = s_['rv']['ops'] if s_['rv']['k'] == 'aggr' and s_['rv']['ak'] == 'tuple' and ops is None else False
+            if ops is not None and ops is not False and len(ops) + 2 == F.bodies[t['res']]['argc'] + 1:
+                out.append((bi, t, ops))
+        return out
+    if b['kind'] == 'Closure' or not sites(b):
+        return None
+    nb = copy.deepcopy({k: v for k, v in b.items() if k != '_facts'})
+    done = []
+    for _ in range(max_rounds):
+        ss = sites(nb)
+        if not ss or len(nb['blocks']) > 800:
+            break
+        bi, t, ops = ss[0]
+        t['args'] = [t['args'][0]] + copy.deepcopy(ops)
+        t['callee'] = t['res']
+        t['local'] = True
+        inline_call(nb, bi, F.bodies[t['res']])
+        # not a helper region that decides the caller's result
+        nb['inl_regions'] = nb.get('inl_regions', [])[:-1]
+        done.append(t['res'])
+    nb['_facts'] = F
+    nb['inlined_closures'] = done
     return nb
